@@ -335,3 +335,5 @@ Definition seq_state (k base fill : Z) (n : nat) : config :=
               q := vs; ph := map (fun i => snd (slot i)) idx; lin := map LPush vs |};
      ths := repeat Idle n; hist := [] |}.
 
+
+Definition only_pop (sched : list (nat * op)) : Prop := Forall (fun e => snd e = OpPop) sched.
